@@ -7,7 +7,9 @@
    service is durably blocked (testing/synctest), i.e. when no internal step is enabled; taking a
    body from Listen() into its one-slot mailbox is done eagerly at every such point (Recv is
    internal here).  An error body is not distinguished from no body (the harness drops error
-   bodies as they come): the generator takes the silent branch of AdaptRun.
+   bodies as they come): the generator takes the silent branch of AdaptRun.  Where a class has more
+   than one abstract answer (AnsSet: a truncating peer cuts before or after the first item) the
+   Deliver step carries the chosen one (`k`) and the harness picks a concrete variant of it.
    Every history entry carries the projection of the state BEFORE the harness step; the last
    entry ("End") carries the final one. *)
 EXTENDS P2PSyncWorld, Json
